@@ -142,6 +142,34 @@ def check(run, repo):
         run.check(not dups, 'TABLE.dupkey', 'constants.%s' % tname, 'dup:%s' % dups,
                   'duplicate key(s) %s silently shadow an earlier entry' % dups, tmod, node)
 
+    # ---- the quantity type of a unit is its physical dimension (the checker's own table of the unit symbols, read
+    #      off their definitions): units of one dimension share one type, different dimensions have different types
+    groups = {}
+    unknown = []
+    for u in sorted(type_dict):
+        d_ = DIMENSION.get(u)
+        if d_ is None:
+            unknown.append(u)
+        else:
+            groups.setdefault(d_, []).append(u)
+    for u in unknown:
+        run.note('unit %r is not in the checker\'s table of physical dimensions: its quantity type is not decided' % u,
+                 m, type_node)
+    run.floor('units with a known physical dimension', sum(len(v) for v in groups.values()), 60)
+    seen_types = {}
+    for d_, us in sorted(groups.items()):
+        tys = sorted({type_dict[u] for u in us})
+        run.check(len(tys) == 1, 'TABLE.kind', 'constants.type_dict', 'dimension:%s' % d_,
+                  'units %s all measure %s but are typed %s: conversions among them are refused or units of another '
+                  'quantity are accepted' % (us, d_, {u: type_dict[u] for u in us if type_dict[u] != tys[0]} or tys),
+                  m, type_node, sample='units of dimension %s share the type %r' % (d_, tys[0]))
+        for t_ in tys:
+            if t_ in seen_types and seen_types[t_] != d_:
+                run.fail('TABLE.kind', 'constants.type_dict', 'type:%s' % t_,
+                         'quantity type %r is given to units of dimension %s and of dimension %s' % (t_, seen_types[t_], d_),
+                         m, type_node)
+            seen_types.setdefault(t_, d_)
+
     # ---- every admitted non-temperature unit has a factor ---------------
     for u, ty in sorted(type_dict.items()):
         if ty == 'temp':
@@ -669,3 +697,33 @@ def elements(run, repo, m):
                       'has molar mass %s (expected %s) and parses to %s: results are shared between calls'
                       % (show_(r2), show_(want), sorted(map(str, again.d)) if isinstance(again, DictV) else again),
                       pm, pf)
+
+
+# physical dimension of every unit symbol the conversion table admits (frozen after reading the definitions of the
+# symbols; a symbol missing here is reported as undecided, not as a finding)
+DIMENSION = {}
+for _d, _us in (
+        ('energy', 'J kJ eV cal kcal Eh Ha'), ('energy', ['L atm']),
+        ('energy per amount', 'J/mol kJ/mol cal/mol kcal/mol eV/molecule eV/particle Eh/molecule Eh/particle '
+                              'Ha/molecule Ha/particle'),
+        ('time', 's ms ns ps min hr day'), ('amount', 'mol molec molecule particle'),
+        ('temperature', 'K C F R'), ('length', 'm cm nm A km inch ft mile'),
+        ('area', 'm2 cm2 A2 km2 inch2 ft2'), ('volume', 'm3 cm3 L mL inch3 ft3'),
+        ('mass', 'kg g amu lbs'), ('pressure', 'Pa kPa MPa atm bar mmHg torr psi')):
+    for _u in (_us.split() if isinstance(_us, str) else _us):
+        DIMENSION[_u] = _d
+
+
+K_ = 'pmutt/constants.py'
+MUTANTS = [
+    {'name': 'division and multiplication swapped in the linear conversion', 'expect': ('', 'convert_unit'),
+     'edits': [(K_, "        result = num * unit_dict[final] / unit_dict[initial]", "        result = num * unit_dict[initial] / unit_dict[final]")]},
+    {'name': 'Fahrenheit to Kelvin without the offset', 'expect': ('', 'convert_unit'),
+     'edits': [(K_, "                result = (num + 459.67) / 1.8", "                result = num / 1.8")]},
+    {'name': 'kPa per Pa off by a factor of a million', 'expect': ('TABLE', ''),
+     'edits': [(K_, "        'kPa': 1.e-3,", "        'kPa': 1.e3,")]},
+    {'name': 'mmHg declared a length', 'expect': ('', ''),
+     'edits': [(K_, "    'mmHg': 'pressure',", "    'mmHg': 'length',")]},
+    {'name': 'conversion between unit types no longer refused', 'expect': ('ORDER.refuse', 'convert_unit'),
+     'edits': [(K_, "    if initial_type != final_type:", "    if initial_type != final_type and False:")]},
+]
